@@ -43,6 +43,14 @@ Proof.
 Qed.
 Print Assumptions race_spawns_and_captures_covered.
 
+(* the DEFAULT eventer factory (service/option.go newOptions) allocates: every connection has its own
+   defaultTerminalEvent, so its createTime - written by OnJoinEvent, read by OnLeaveEvent - is a location of that
+   connection's reader alone (field_table: the class of c.key).  One shared object would be written and read by
+   the readers of different connections (seed C18-12) *)
+Theorem race_default_eventer_fresh : gen_race_default_eventer_fresh = true.
+Proof. reflexivity. Qed.
+Print Assumptions race_default_eventer_fresh.
+
 (* non-vacuity: the lists are not empty *)
 Example race_gen_nonempty :
   (List.length gen_race_sites >= 50 /\ List.length gen_race_edges >= 50 /\ List.length gen_race_caps >= 5 /\ List.length gen_race_decls >= 20)%nat.
